@@ -98,6 +98,19 @@ structure Metadata where
 def is_dir (m : Metadata) : Bool := m.dir
 def modified (m : Metadata) : Except Err SystemTime := .ok m.mtime
 instance : Len Metadata := ⟨fun m => m.size⟩
+/-- what `symlink_metadata` (lstat) reports: the kind of the entry ITSELF -/
+inductive EntryKind where
+  | file | dir | symlink
+  deriving DecidableEq, Repr, Inhabited
+structure LMetadata where
+  kind : EntryKind
+  nlink : Nat
+  deriving DecidableEq, Repr, Inhabited
+def l_is_dir (m : LMetadata) : Bool := m.kind == .dir
+def l_is_file (m : LMetadata) : Bool := m.kind == .file
+/-- `Metadata::file_type()` followed by `is_symlink()` -/
+def l_file_type (m : LMetadata) : EntryKind := m.kind
+def l_is_symlink (k : EntryKind) : Bool := k == .symlink
 /-- `v[i]` behind a length test (`default` stands for the out-of-bounds panic) -/
 def index [Inhabited α] (l : List α) (i : Nat) : α := l.getD i default
 /-- `std::io::SeekFrom` -/
